@@ -180,7 +180,7 @@ def slice_lemma(tier, pid='C07'):
             real = tu.slice_length(slice(a, b, step), nn)
             truth = len(range(*slice(a, b, step).indices(nn)))
             if real != truth:
-                rdir = os.path.join(ROOT, 'replays', pid)
+                rdir = os.path.join(os.environ.get('VP_SCRATCH') or ROOT, 'replays', pid)
                 os.makedirs(rdir, exist_ok=True)
                 args = {'start': a, 'stop': b, 'step': step, 'n': nn}
                 digest = hashlib.sha1(json.dumps(args, sort_keys=True).encode()).hexdigest()[:10]
